@@ -1,10 +1,13 @@
 package c11
 
 import (
+	"bytes"
 	"fmt"
 	"io"
+	"net"
 	"net/http"
 	"reflect"
+	"strings"
 	"testing"
 	"time"
 	"unsafe"
@@ -363,10 +366,158 @@ func genWS(t *rapid.T) WSCase {
 	return c
 }
 
+// ---------- workload 4: protocol switch (upgrade) hand-over inside the HTTP parser ----------
+
+// HandoverCase: a server-side parser receives 0-2 ordinary requests, then a request whose handler
+// switches the connection to another protocol by installing a ParserCloser (what the WebSocket upgrader
+// does on parser-driven connections), followed by Tail bytes of the new protocol; everything arrives
+// cut at arbitrary positions. The bytes after the upgrade request belong to the new protocol: they must
+// reach its Parse exactly once, in order, unaltered - whether they were sitting in the parser's pooled
+// cache or in the caller's read buffer.
+type HandoverCase struct {
+	Before   []byte `json:"before"` // ordinary requests in front
+	Upgrade  []byte `json:"upgrade"`
+	Tail     []byte `json:"tail"`
+	Cuts     []int  `json:"cuts,omitempty"`
+	StopAt   int    `json:"stop_at"`
+	ReadBody int    `json:"read_body"`
+}
+
+type protoRecorder struct {
+	got    []byte
+	closed int
+	conn   *vlib.FakeConn
+}
+
+func (r *protoRecorder) UnderlayerConn() net.Conn { return r.conn }
+func (r *protoRecorder) Parse(data []byte) error  { r.got = append(r.got, data...); return nil }
+func (r *protoRecorder) CloseAndClean(err error)  { r.closed++ }
+
+func runHandover(c HandoverCase) vlib.Result {
+	return vlib.WithWatchdog(60*time.Second, "the HTTP parser (protocol switch)", func() vlib.Result {
+		tracker.Reset()
+		res := vlib.Result{Classes: []string{"workload=upgrade-handover"}}
+		conn := &vlib.FakeConn{}
+		rec := &protoRecorder{conn: conn}
+		var p *nbhttp.Parser
+		conf := nbhttp.Config{ServerExecutor: inline, ClientExecutor: inline, SupportServerOnly: true, BodyAllocator: tracker}
+		conf.Handler = http.HandlerFunc(func(w http.ResponseWriter, r *http.Request) {
+			switch c.ReadBody {
+			case 1:
+				buf := make([]byte, 7)
+				_, _ = r.Body.Read(buf)
+			case 2:
+				_, _ = io.ReadAll(r.Body)
+			}
+			if r.Header.Get("Upgrade") != "" {
+				p.ParserCloser = rec // from now on the connection speaks another protocol
+				return
+			}
+			_, _ = w.Write([]byte("ok"))
+		})
+		engine := nbhttp.NewEngine(conf)
+		if len(c.Before) > 0 {
+			// the requests in front must be acceptable on their own (the generator also produces lenient
+			// forms that this parser refuses): otherwise the case says nothing about the hand-over
+			p = nbhttp.NewParser(&vlib.FakeConn{}, engine, nbhttp.NewServerProcessor(), false, nil)
+			err := p.Parse(append([]byte(nil), c.Before...))
+			p.CloseAndClean(err)
+			vlib.Logs.Take()
+			tracker.Reset()
+			if err != nil {
+				res.Classes = append(res.Classes, "requests-in-front-refused (skipped)")
+				return res
+			}
+		}
+		p = nbhttp.NewParser(conn, engine, nbhttp.NewServerProcessor(), false, nil)
+		stream := append(append(append([]byte(nil), c.Before...), c.Upgrade...), c.Tail...)
+		segs := vlib.Split(stream, c.Cuts)
+		var perr error
+		fed, fedBytes := 0, 0
+		for i, sg := range segs {
+			if c.StopAt >= 0 && i >= c.StopAt {
+				break
+			}
+			fed++
+			fedBytes += len(sg)
+			if perr = p.Parse(append([]byte(nil), sg...)); perr != nil {
+				break
+			}
+		}
+		p.CloseAndClean(perr)
+		vlib.Logs.Take()
+		if perr != nil {
+			res.Err = fmt.Errorf("valid requests followed by a protocol switch: Parse returned %v after %d of %d segments", perr, fed, len(segs))
+			return res
+		}
+		// what the new protocol must have received: the part of the tail that was fed
+		wantLen := fedBytes - len(c.Before) - len(c.Upgrade)
+		if wantLen < 0 {
+			wantLen = 0
+		}
+		want := c.Tail[:wantLen]
+		if !bytes.Equal(rec.got, want) {
+			what := "lost, duplicated or altered"
+			if vlib.ContainsPoison(rec.got, 3) {
+				what = "read after free: it contains freed-buffer poison (0xDD)"
+			}
+			res.Err = fmt.Errorf("after the protocol switch the new protocol received %d bytes, %d were sent behind the upgrade request; %s: got %s want %s (cuts %v)", len(rec.got), len(want), what, vlib.Preview(rec.got, 80), vlib.Preview(want, 80), c.Cuts)
+			return res
+		}
+		if v := tracker.Finish(); len(v) > 0 {
+			res.Err = fmt.Errorf("%s", v[0])
+			return res
+		}
+		if wantLen > 0 {
+			res.Classes = append(res.Classes, "bytes-handed-over")
+			// non-trivial: some hand-over bytes arrived in the same read as the end of the upgrade request
+			end := len(c.Before) + len(c.Upgrade)
+			glued := true
+			for _, cut := range c.Cuts {
+				if cut == end {
+					glued = false
+				}
+			}
+			if glued {
+				res.Classes = append(res.Classes, "tail-glued-to-request-end")
+				res.NonTrivial = true
+			}
+		}
+		return res
+	})
+}
+
+func genHandover(t *rapid.T) HandoverCase {
+	var c HandoverCase
+	if rapid.Bool().Draw(t, "before") {
+		c.Before, _ = vlib.GenStream(t, vlib.HTTPOpts{MaxMsg: 2, Strict: true})
+	}
+	// the upgrade request: a GET with a drawn number of extra headers (so that its size varies)
+	var sb strings.Builder
+	sb.WriteString("GET /chat HTTP/1.1\r\nHost: example.com\r\nUpgrade: websocket\r\nConnection: Upgrade\r\n")
+	nh := rapid.IntRange(0, 6).Draw(t, "nheaders")
+	for i := 0; i < nh; i++ {
+		fmt.Fprintf(&sb, "X-H%d: %s\r\n", i, strings.Repeat("v", rapid.SampledFrom([]int{1, 10, 100, 1000}).Draw(t, "hlen")))
+	}
+	sb.WriteString("\r\n")
+	c.Upgrade = []byte(sb.String())
+	c.Tail = vlib.FillTagged(1, 0, rapid.SampledFrom([]int{0, 1, 6, 65, 200, 5000}).Draw(t, "taillen"))
+	total := len(c.Before) + len(c.Upgrade) + len(c.Tail)
+	interesting := []int{len(c.Before), len(c.Before) + len(c.Upgrade), len(c.Before) + len(c.Upgrade) - 1, len(c.Before) + len(c.Upgrade) + 1, len(c.Before) + len(c.Upgrade) - 2}
+	c.Cuts = vlib.GenCuts(t, total, interesting)
+	c.StopAt = -1
+	if rapid.IntRange(0, 3).Draw(t, "stop") == 0 {
+		c.StopAt = rapid.IntRange(0, len(c.Cuts)+1).Draw(t, "stopat")
+	}
+	c.ReadBody = rapid.IntRange(0, 2).Draw(t, "readbody")
+	return c
+}
+
 func TestCheck(t *testing.T) {
 	r := vlib.NewRunner(t, "C11")
 	vlib.RunCheck(r, vlib.Check[c09.Case]{Name: "http-response", N: r.Pick(25000, 400000), Gen: genResp, Run: runResp})
 	vlib.RunCheck(r, vlib.Check[ParseCase]{Name: "http-parse", N: r.Pick(25000, 400000), Gen: genParse, Run: runParse})
 	vlib.RunCheck(r, vlib.Check[WSCase]{Name: "websocket", N: r.Pick(25000, 400000), Gen: genWS, Run: runWS})
+	vlib.RunCheck(r, vlib.Check[HandoverCase]{Name: "upgrade-handover", N: r.Pick(15000, 300000), Gen: genHandover, Run: runHandover})
 	r.Finish()
 }
